@@ -252,5 +252,5 @@ def corruption_cases():
 
 
 def run_shard(ctx, rec):
-    drive(ctx, rec, "roundtrip", RD.programs(), check_roundtrip, ctx.n(4000, 150000), max_novel=8)
-    drive(ctx, rec, "corruption", corruption_cases(), check_corruption, ctx.n(1500, 50000))
+    drive(ctx, rec, "roundtrip", RD.programs(), check_roundtrip, ctx.n(4000, 80000), max_novel=8)
+    drive(ctx, rec, "corruption", corruption_cases(), check_corruption, ctx.n(1500, 30000))
